@@ -6,6 +6,8 @@ CONSTANTS
   OpsMenu <- MCOpsMenu
   RecallMenu <- MCRecallMenu
   MatchArms <- MCMatchArms
+  StrayBase <- MCStrayBase
+  StrayOps <- MCStrayOps
   Enumerate = TRUE
 INVARIANTS WellFormed NoSideEffectsOnFailure RecalledMarked ExitShape CompiledAgrees Emit
 CHECK_DEADLOCK FALSE
